@@ -1,7 +1,7 @@
 """Subprocess helper for C19: build converters in the given history, print the battery results of selected ones.
 
 usage: c19_probe.py '<json spec>'
-spec = {"history": ["fresh", "nodetail", "forbid", "custom", ...], "report": [indices], "use_all": bool,
+spec = {"history": ["fresh", "nodetail", "forbid", "custom", "fresh+hook", ...], "report": [indices], "use_all": bool,
         "preempt": {"point": k} (optional: two threads, thread A suspended at its k-th line event inside lsprotocol)}
 """
 import json
@@ -29,6 +29,14 @@ def make(kind):
         c = cattrs.Converter()
         c.register_unstructure_hook(T.Position, lambda p: [p.line, p.character])
         c = converters.get_converter(c)
+        return c
+    if kind == "fresh+hook":
+        # a user customises the converter get_converter() handed out (after the fact): nobody else's converter may notice
+        import lsprotocol.types as T
+
+        c = converters.get_converter()
+        c.register_unstructure_hook(T.Position, lambda p: f"{p.line}:{p.character}")
+        c.register_structure_hook(T.Position, lambda v, _: T.Position(line=int(str(v).split(":")[0]), character=int(str(v).split(":")[1])) if isinstance(v, str) else T.Position(**v))
         return c
     raise ValueError(kind)
 
